@@ -70,12 +70,18 @@ func (ds *dataStore) newStoreKeyUnlocked(keyName string) *storeKey {
 // makes a full copy of a store key, optionally into a different data store
 func (ds *dataStore) copyStoreKeyUnlocked(srcKeyName, destKeyName string, dds *dataStore, overwrite bool) (newSk *storeKey, destExists bool) {
 	sk, exists := ds.getStoreKey(srcKeyName)
-	if !exists {
+	if !exists || sk.isExpiredUnlocked() {
+		// an expired source is a missing source
 		return
 	}
 
 	if !overwrite {
-		_, destExists = dds.getStoreKey(destKeyName)
+		var dsk *storeKey
+		dsk, destExists = dds.getStoreKey(destKeyName)
+		if destExists && dsk.isExpiredUnlocked() {
+			// an expired destination does not exist
+			destExists = false
+		}
 		if destExists {
 			return
 		}
@@ -90,12 +96,18 @@ func (ds *dataStore) copyStoreKeyUnlocked(srcKeyName, destKeyName string, dds *d
 // moves a store key, optionally into a different data store
 func (ds *dataStore) moveStoreKeyUnlocked(srcKeyName, destKeyName string, dds *dataStore, overwrite bool) (newSk *storeKey, destExists bool) {
 	sk, exists := ds.getStoreKey(srcKeyName)
-	if !exists {
+	if !exists || sk.isExpiredUnlocked() {
+		// an expired source is a missing source
 		return
 	}
 
 	if !overwrite {
-		_, destExists = dds.getStoreKey(destKeyName)
+		var dsk *storeKey
+		dsk, destExists = dds.getStoreKey(destKeyName)
+		if destExists && dsk.isExpiredUnlocked() {
+			// an expired destination does not exist
+			destExists = false
+		}
 		if destExists {
 			return
 		}
